@@ -24,6 +24,9 @@ MARKUP_CFGS = [
     ('wrap-string', {'text': 'line one\nline two'}),
     ('context+bem', {'context': {'name': 'ul', 'attributes': {'class': 'blk'}}, 'options': {'bem.enabled': True}}),
     ('slim+maxRepeat', {'syntax': 'slim', 'maxRepeat': 3}),
+    ('haml+text+reverse', {'syntax': 'haml', 'text': ['x y', '$#'], 'options': {'output.reverseAttributes': True, 'output.attributeQuotes': 'single'}}),
+    ('xhtml+nohref+upper', {'syntax': 'xhtml', 'maxRepeat': 1, 'options': {'markup.href': False, 'output.tagCase': 'upper', 'output.attributeCase': 'upper',
+                                                                          'output.format': False}}),
     ('context-without-attributes+bem', {'context': {'name': 'div'}, 'options': {'bem.enabled': True, 'comment.enabled': True}}),
     ('vue+formatLeaf', {'syntax': 'vue', 'options': {'output.formatLeafNode': True, 'output.reverseAttributes': True,
                                                      'output.compactBoolean': True, 'output.selfClosingStyle': 'xhtml'}}),
@@ -43,6 +46,9 @@ CSS_CFGS = [
 BIGREP = re.compile(r'\*\d{3,}')
 
 
+QUICK = [False]
+
+
 def _sub(s):
     return s.replace('~', 'é')
 
@@ -57,7 +63,12 @@ def _chunk(items):
     for tid, s, lang in items:
         src = _sub(s)
         calls = []
-        for cname, cfg in (MARKUP_CFGS if lang == 'markup' else CSS_CFGS):
+        cfgs = MARKUP_CFGS if lang == 'markup' else CSS_CFGS
+        if QUICK[0] and len(src) > 3:
+            # quick tier: longer strings run under every second configuration (which half is chosen by a hash of the string)
+            h = zlib.crc32(src.encode())
+            cfgs = [c for i, c in enumerate(cfgs) if (i + h) % 2 == 0]
+        for cname, cfg in cfgs:
             c = copy.deepcopy(cfg)
             if lang == 'markup' and BIGREP.search(src):
                 c.setdefault('maxRepeat', 25)       # "*1111" legitimately takes long; the budget keeps the run short
@@ -128,6 +139,7 @@ def _mutations(s, salt):
 
 def run(out):
     quick = out.tier == 'quick'
+    QUICK[0] = quick
     out.rule = ('one trace per input string (all strings up to the bound over a 26-symbol markup and a 26-symbol stylesheet alphabet, '
                 'simulated longer structural strings, one-character mutations of the abbreviation literals of the repository tests), '
                 'one event per configuration; non-trivial = the string is not rejected by the parser under the first configuration; '
@@ -136,15 +148,17 @@ def run(out):
     insts = [
         ('markup-exhaustive', 'markup', dict(constants={'Alphabet': MARKUP_ALPHA, 'MaxLen': 3 if quick else 4})),
         ('markup-structural', 'markup', dict(constants={'Alphabet': STRUCT_M, 'MaxLen': 10 if quick else 14},
-                                             simulate=8 if quick else 300, depth=10 if quick else 14, seed=out.seed)),
+                                             simulate=3 if quick else 45, depth=10 if quick else 14, seed=out.seed)),
         ('css-exhaustive', 'css', dict(constants={'Alphabet': CSS_ALPHA, 'MaxLen': 3 if quick else 4})),
         ('css-structural', 'css', dict(constants={'Alphabet': STRUCT_C, 'MaxLen': 10 if quick else 14},
-                                       simulate=8 if quick else 300, depth=10 if quick else 14, seed=out.seed + 1)),
+                                       simulate=3 if quick else 45, depth=10 if quick else 14, seed=out.seed + 1)),
     ]
     work = []          # (name, lang, strings, TlcResult or None)
     for name, lang, kw in insts:
         r = common.run_tlc('Strings', timeout=3000, heap='12g', **kw)
         strings = sorted(set(v['s'] for v in r.vectors()))
+        if r.mode == 'simulate':
+            strings = common.sample(strings, 6000 if quick else 150000, out.seed, key=str)
         if r.mode == 'bfs':
             out.exhaustive = r.exhaustive if out.exhaustive is None else (out.exhaustive and r.exhaustive)
         out.add_tlc(name + '-generator', r, strings=len(strings))
@@ -181,7 +195,7 @@ def run(out):
         out.evaluations += ncalls
         by = {t['tid']: t for t in traces}
         for t in traces:
-            if t['calls'][0]['kind'] == 'str':
+            if t['calls'] and t['calls'][0]['kind'] == 'str':
                 out.distinct.add((t['src'], lang))
         for k, v in verdicts.items():
             if v[0] == 'REJECT':
